@@ -35,6 +35,11 @@ from configs.validate import validate_config
 
 INF = float("inf")
 REL = 1e-12      # relative tolerance for magnitudes
+# Duplicates of incomparable magnitude on one target ([1e300, 0.25, -1e300]) are merged by one-by-one float addition, so
+# the merged value (0.0 or 0.25) depends on the listing order.  DESIGN puts float non-associativity outside the alphabet:
+# such multisets are executed, envelope- and purity-checked, and their reference/permutation mismatches are counted but
+# not judged.  Set to True to have them reported (signature suffix ``float-absorption``).
+JUDGE_ABSORPTION = False
 ABS = 1e-300     # absolute tolerance (denormals under scaling)
 
 # ---------------------------------------------------------------- alphabets
@@ -533,7 +538,7 @@ def run_case(deltas, op_specs, caps, cooldowns, last, turn=5, turn_type="int", s
 
     def soft(sig):
         # mismatches that float absorption in duplicate merging explains are counted, not judged (see assumptions)
-        return e.absorbing and (sig.startswith("ref:") or sig.startswith("perm:"))
+        return e.absorbing and not JUDGE_ABSORPTION and (sig.startswith("ref:") or sig.startswith("perm:"))
 
     def account():
         if st is None:
@@ -582,8 +587,12 @@ def run_case(deltas, op_specs, caps, cooldowns, last, turn=5, turn_type="int", s
     for sig, what in found:
         if soft(sig):
             n_soft += 1
+        elif JUDGE_ABSORPTION and e.absorbing and not sig.startswith("envelope:"):
+            add("%s:float-absorption" % sig, what)
+            break
         else:
             add("%s:%s" % (sig, tag), what)
+            break       # first failing clause only (keeps the signature set small)
     # every other distinct ordering of the delta list
     n = len(pds)
     if n > 1:
@@ -606,7 +615,7 @@ def run_case(deltas, op_specs, caps, cooldowns, last, turn=5, turn_type="int", s
                 if soft("perm:"):
                     n_soft += 1
                 else:
-                    add("perm:order-dependent:%s" % tag, "ordering %r of the deltas gives %r, canonical ordering gives %r" % (
+                    add("perm:order-dependent:%s" % ("float-absorption" if e.absorbing else tag), "ordering %r of the deltas gives %r, canonical ordering gives %r" % (
                         list(perm), r[:3], base[:3]))
                     break
             bad = envelope(r, e, proposed, nov, l2, churn)
